@@ -17,7 +17,7 @@ def reg(pid, **kw):
     PROPS[pid] = kw
 
 
-reg("C12",
+reg("C12", needs_cli=True,
     rule="cases = (bucket list, latency multiset) with latencies on/just below/just above every bound, "
          "empty sets, non-increasing and below-first-bound lists (outside the domain, model comparison only), "
          "and textual bucket specs with random units/spacing plus a malformed stream; a case is non-trivial "
